@@ -221,6 +221,7 @@ struct Exec
     bool closeIssued = false;
     bool everReceived = false;
     bool fresh = false; // accepted and no data seen yet
+    bool foreign = false; // peer is not one of the harness' raw sockets: traffic of some other process
   };
   std::map<net::SessionId, Sess> sess;
 
@@ -238,7 +239,7 @@ struct Exec
   std::map<std::pair<Addr, std::string>, net::SessionId> lastRecv; // (source, destination socket) -> session
 
   // statistics for labels / non-trivial rule
-  std::size_t lostByClose = 0, fullTimeouts = 0;
+  std::size_t lostByClose = 0, fullTimeouts = 0, foreignSeen = 0;
   std::size_t lost = 0, slow = 0, delivered = 0, sendsArrived = 0, sendsLost = 0, dataAfterClose = 0;
   bool multiSessionPeer = false, closeBetween = false, crossListener = false;
   std::map<Addr, int> dgramsSeenFrom;           // for the "close of another session between two datagrams" rule
@@ -338,7 +339,7 @@ struct Exec
   {
     std::vector<net::SessionId> v;
     for (auto &kv : sess)
-      if (!kv.second.closedInLog && !kv.second.closeIssued && kv.second.announced && (kindFilter < 0 || kv.second.kind == kindFilter))
+      if (!kv.second.foreign && !kv.second.closedInLog && !kv.second.closeIssued && kv.second.announced && (kindFilter < 0 || kv.second.kind == kindFilter))
         v.push_back(kv.first);
     return v;
   }
@@ -379,8 +380,15 @@ struct Exec
       s.peer = toAddr(e.host, e.port);
       s.announced = true;
       s.fresh = true;
+      if (peerIndexOf(s.peer) < 0)
+      {
+        // a datagram from a socket that is not ours (another process on this machine hit the
+        // listener's ephemeral port): not part of the history, ignored
+        s.foreign = true;
+        ++foreignSeen;
+      }
       sess[e.sid] = s;
-      noteSessionForPeer(s.peer);
+      if (!s.foreign) noteSessionForPeer(s.peer);
       break;
     }
     case Ev::Connect:
@@ -403,6 +411,10 @@ struct Exec
     }
     case Ev::Data:
     {
+      {
+        auto fit = sess.find(e.sid);
+        if (fit != sess.end() && fit->second.foreign) return;
+      }
       if (e.bytes.empty())
       {
         c.label("empty onData");
@@ -491,7 +503,17 @@ struct Exec
   void processPeerDatagram(int pi, const Addr &from, const std::uint8_t *data, std::size_t got, std::size_t realLen)
   {
     if (c.failed()) return;
-    (void)from;
+    bool fromEngine = false;
+    for (auto &l : lst)
+      if (l.addr.port == from.port) fromEngine = true; // listeners are bound to 127.0.0.1; replies to 127.0.0.x peers keep the port
+    for (auto &kv : sess)
+      if (kv.second.kind == 2 && kv.second.local.port == from.port) fromEngine = true;
+    if (!fromEngine)
+    {
+      // some other process on this machine sent to our ephemeral port: not the engine's doing
+      ++foreignSeen;
+      return;
+    }
     if (realLen == 0)
     {
       c.label("raw peer got an empty datagram");
@@ -871,6 +893,7 @@ struct Exec
         if (sent[i].delivered == 0) l += " #" + std::to_string(i) + (sent[i].toIora ? "(to " + sent[i].dest + ")" : "(send on " + std::to_string(sent[i].sid) + ")");
       std::fprintf(stderr, "LOST%s in %s\n", l.c_str(), describe(p).c_str());
     }
+    if (foreignSeen) c.label("foreign traffic on an ephemeral port ignored");
     if (lostByClose) c.label("datagram overtaken by the close of its own session (counted, not flagged)");
     if (lost) c.label("datagram to iora lost (counted, not flagged)");
     if (sendsLost) c.label("app send never arrived (counted, not flagged)");
